@@ -108,7 +108,7 @@ def enum_cases(ctx):
 
 def random_cases(ctx):
     rng = ctx.rng('rnd')
-    n = 300 if ctx.tier == 'quick' else 40000
+    n = 900 if ctx.tier == 'quick' else 40000
     for _ in range(n):
         mod = rng.choice(MODULOS + (3, 1000003, 0.1))
         floats = rng.random() < 0.3 or isinstance(mod, float)
